@@ -23,8 +23,8 @@ def scratch_dir(prefix="verif-"):
   return tempfile.mkdtemp(prefix=prefix, dir=base)
 
 
-def java_cmd(xmx="3g", xss="512m", extra=()):
-  return ["java", "-XX:+UseParallelGC", "-Xmx" + xmx, "-Xss" + xss] + list(extra) + \
+def java_cmd(xmx="3g", xss="512m", extra=(), gc="-XX:+UseSerialGC"):
+  return ["java", gc, "-Xmx" + xmx, "-Xss" + xss] + list(extra) + \
          ["-cp", TLA_CP, "tlc2.TLC"]
 
 
@@ -37,7 +37,7 @@ def start_trace_check(module, shard_path, out_path, workdir, timeout=3600, cfg=N
   env["OUT_FILE"] = out_path
   env.pop("JAVA_TOOL_OPTIONS", None)
   cmd = ["timeout", str(timeout)] + java_cmd(xmx=xmx) + [
-    "-workers", "1", "-metadir", meta, "-noGenerateSpecTE",
+    "-workers", "1", "-fpmem", "0.02", "-metadir", meta, "-noGenerateSpecTE",
     "-config", cfg or (module + ".cfg"), module + ".tla"]
   log = open(out_path + ".log", "w")
   return subprocess.Popen(cmd, cwd=SPEC, env=env, stdout=log, stderr=subprocess.STDOUT)
@@ -87,7 +87,7 @@ def run_model(module, cfg, workdir, workers=16, timeout=1800, xmx="8g", extra_ar
   env.pop("JAVA_TOOL_OPTIONS", None)
   if env_extra:
     env.update(env_extra)
-  cmd = ["timeout", str(timeout)] + java_cmd(xmx=xmx, xss="64m") + [
+  cmd = ["timeout", str(timeout)] + java_cmd(xmx=xmx, xss="64m", gc="-XX:+UseParallelGC") + [
     "-workers", str(workers), "-metadir", meta, "-noGenerateSpecTE", "-config", cfg]
   if coverage:
     cmd += ["-coverage", "1"]
